@@ -56,7 +56,30 @@ def script_operator_pairs(kind, rng, nv=4):
             ops.append(f"{o2} h{k} h{a} h{b}"); k += 1
     ops.append("SNAP")
     if kind != "mtbdd":
+        # memoised results across add_vars: operations whose results / operands include the constant
+        # true function (for ZBDDs the top of the tautology chain, which add_vars rebuilds) are issued,
+        # their results dropped, a variable is added without a collection in between, and the very
+        # same operations are issued again
+        first = k
+        round1 = []          # (op, operand slots): operands stay alive, results may be dropped
+        drop = []
+        for a in rng.sample(range(pool), 4):
+            b = rng.randrange(pool)
+            nota = k
+            ops.append(f"NOT h{k} h{a}"); round1.append(("NOT", [a])); k += 1
+            ops.append(f"OR h{k} h{a} h{nota}"); round1.append(("OR", [a, nota])); drop.append(k); k += 1     # = true
+            ops.append(f"EQUIV h{k} h{a} h{a}"); round1.append(("EQUIV", [a, a])); drop.append(k); k += 1     # = true
+            ops.append(f"IMP h{k} h{b} h{k - 1}"); drop.append(k); k += 1                                     # true as operand, = true
+            o = rng.choice(allops)
+            ops.append(f"{o} h{k} h{a} h{b}"); round1.append((o, [a, b])); k += 1
+            ops.append(f"NAND h{k} h{nota} h{a}"); round1.append(("NAND", [nota, a])); drop.append(k); k += 1  # = true
+        ops.append("SNAP")
+        for d in drop:
+            ops.append(f"DROP h{d}")
         ops.append("VARS 1")
+        for o, args in round1:
+            ops.append(f"{o} h{k} " + " ".join(f"h{x}" for x in args)); k += 1
+        ops.append("SNAP")
         for (o1, o2) in pairs[:12]:
             a, b = rng.randrange(pool), rng.randrange(pool)
             ops.append(f"{o1} h{k} h{a} h{b}"); k += 1
